@@ -139,6 +139,7 @@ func (c *Ctx) Load(patterns ...string) {
 			simplifySyntax(p)
 			lowerRangeInt(p)
 			pinNames(p)
+			inlinePredicates(p)
 			normalizeComparisons(p)
 		}
 	})
